@@ -34,7 +34,7 @@ EXTENDS MonCommon
 MonInit == [ p |-> [i |-> 0, t |-> 0, cfgI |-> 0, cfgT |-> 0, recMs |-> 0],
              reqs |-> <<>>, resps |-> <<>>, pings |-> <<>>, pongs |-> <<>>, bpings |-> <<>>, bpongs |-> <<>>,
              downs |-> <<>>, clis |-> <<>>, dials |-> <<>>, disc |-> <<>>, recon |-> <<>>, releases |-> <<>>,
-             closeT |-> -1, lastT |-> 0, stalls |-> <<>>, appRet |-> 0, appOk |-> 0 ]
+             closeT |-> -1, lastT |-> 0, stalls |-> <<>>, appRet |-> 0, appOk |-> 0, offs |-> <<>> ]
 MonReset(e) == [MonInit EXCEPT !.p = [i |-> e.p.i, t |-> e.p.t, cfgI |-> e.p.cfgI, cfgT |-> e.p.cfgT, recMs |-> e.p.recMs]]
 
 Upd(m, e) ==
@@ -51,6 +51,9 @@ Upd(m, e) ==
       [] e.ev = "Disconnected" -> [m EXCEPT !.disc = Append(@, e.t)]
       [] e.ev = "Reconnected" -> [m EXCEPT !.recon = Append(@, e.t)]
       [] e.ev = "Release" -> [m EXCEPT !.releases = Append(@, e.t)]
+      \* the broker stops (on) / resumes (off) answering pings (BPongOff) or everything (BSilent) on the incarnation that is current
+      [] e.ev \in {"BPongOff", "BSilent"} ->
+            [m EXCEPT !.offs = Append(@, [t |-> e.t, on |-> e.on, c |-> IF m.resps = <<>> THEN 0 ELSE m.resps[Len(m.resps)].c])]
       [] e.ev = "Stall" -> [m EXCEPT !.stalls = Append(@, [t |-> e.t, us |-> e.ms * 1000])]
       [] e.ev = "ApiCall" /\ e.op = "CloseConn" -> [m EXCEPT !.closeT = IF @ < 0 THEN e.t ELSE @]
       [] e.ev = "ApiRet" /\ e.op = "SendMeta" -> [m EXCEPT !.appRet = @ + 1, !.appOk = @ + (IF e.err = "" THEN 1 ELSE 0)]
@@ -89,6 +92,19 @@ DetectDecided(m, c) == FirstUn(m, c) > 0 /\ (Det(m, c) # {} \/ EndOf(m, c) > Dea
 DetectLateC(m, c) ==
     /\ FirstUn(m, c) > 0
     /\ IF Det(m, c) # {} THEN MinS(Det(m, c)) > Deadline(m, c) ELSE EndOf(m, c) > Deadline(m, c)
+
+\* "if the broker stops answering pings, the client declares the connection lost within interval + timeout": counted from the moment
+\* the broker stopped answering (whether or not the client sent a ping afterwards), while the silence lasts and the link is otherwise up
+SilenceEnd(m, k) == LET later == { m.offs[j].t : j \in { x \in (k + 1)..Len(m.offs) : ~m.offs[x].on } }
+                    IN IF later = {} THEN EndOf(m, m.offs[k].c) ELSE MinS(later \cup {EndOf(m, m.offs[k].c)})
+SilenceLateK(m, k) ==
+    LET c == m.offs[k].c  d == m.offs[k].t + II(m) + TT(m) + Slack(m)
+    IN /\ m.offs[k].on /\ c > 0 /\ c \in Incs(m)
+       /\ \A x \in Det(m, c) \cup Other(m, c) : x > m.offs[k].t          \* the link was still up when the broker fell silent
+       /\ SilenceEnd(m, k) > d
+       /\ \A x \in Det(m, c) : x > d
+       /\ \A x \in Other(m, c) : x > d
+SilenceLate(m) == \E k \in 1..Len(m.offs) : SilenceLateK(m, k)
 
 RecRef(m, td) == MaxS({td} \cup { r \in RangeS(m.releases) : r >= td })
 RecBound(m, td) == RecRef(m, td) + (Us(m.p.recMs) * 3) \div 2 + 250000
@@ -129,7 +145,7 @@ AnnounceWrong(m) == \E r \in RangeS(m.reqs) : r.pingI # Announce(m.p.cfgI) \/ r.
 
 Clause(name, b) == IF b THEN {name} ELSE {}
 MonVerdict(m) ==
-    Clause("DetectLate", \E c \in Incs(m) : DetectLateC(m, c))
+    Clause("DetectLate", \E c \in Incs(m) : DetectLateC(m, c)) \cup Clause("SilenceUndetected", SilenceLate(m))
     \cup Clause("NoRecovery", \E c \in Incs(m) : NoRecoveryC(m, c))
     \cup Clause("SpuriousClose", (\E c \in Incs(m) : SpuriousCloseC(m, c)) \/ SpuriousDisconnect(m))
     \cup Clause("PongWrongId", PongWrongId(m)) \cup Clause("PongMissing", PongMissing(m))
